@@ -19,7 +19,7 @@ package main
 // SendTimeout + slack.
 //
 // Nothing that depends on timing is written out except these yes/no observations; the bounds are
-// generous (2 s to return, 500 ms of retries before a goroutine counts as leaked).
+// generous (3 s to return, 1 s of retries before a goroutine counts as leaked, send timeout + 2.5 s for the drop).
 
 import (
 	"context"
@@ -60,6 +60,7 @@ type c13Obs struct {
 	GReq      int    `json:"greq"`     // mocrelay_req_count afterwards (0 before)
 	Panic     string `json:"panic"`
 	Cancelled bool   `json:"cancelled"` // ws: session context cancelled in time
+	Closed    bool   `json:"closed"`    // ws: after the client went away ServeHTTP returned (Relay.Wait came back)
 }
 
 type c13Case struct {
@@ -78,10 +79,10 @@ type c13Case struct {
 const (
 	c13NComp       = 9
 	c13NMw         = 5
-	c13ReturnBound = 2 * time.Second
-	c13LeakRetry   = 500 * time.Millisecond
+	c13ReturnBound = 3 * time.Second
+	c13LeakRetry   = 1000 * time.Millisecond
 	c13FeedBound   = 2 * time.Second
-	c13WsSlack     = 1500 * time.Millisecond
+	c13WsSlack     = 2500 * time.Millisecond
 )
 
 func c13ToClient(m c13Msg) mocrelay.ClientMsg {
@@ -396,13 +397,13 @@ func c13RunWS(c *c13Case) {
 	opt.PingDuration = time.Duration(c.PingMs) * time.Millisecond
 	relay := mocrelay.NewRelay(h, opt)
 	srv := httptest.NewServer(relay)
-	defer srv.Close()
 
 	dctx, dcancel := context.WithTimeout(context.Background(), 5*time.Second)
 	defer dcancel()
 	conn, _, err := websocket.Dial(dctx, "ws"+strings.TrimPrefix(srv.URL, "http"), nil)
 	if err != nil {
 		c.Obs.Panic = "dial: " + err.Error()
+		go srv.Close()
 		return
 	}
 	// the client never reads
@@ -414,13 +415,24 @@ func c13RunWS(c *c13Case) {
 	}
 	t.Stop()
 	conn.CloseNow()
-	// let the server side notice the closed connection and finish
+	// the peer is gone: the connection's goroutines must all finish and ServeHTTP must return.
+	// Nothing here may block the harness: a stuck connection is an observation.
+	closed := make(chan struct{})
+	go func() {
+		select {
+		case <-ended:
+		case <-time.After(3 * time.Second):
+		}
+		srv.CloseClientConnections()
+		relay.Wait()
+		close(closed)
+	}()
 	select {
-	case <-ended:
+	case <-closed:
+		c.Obs.Closed = true
 	case <-time.After(5 * time.Second):
 	}
-	srv.CloseClientConnections()
-	relay.Wait()
+	go srv.Close() // waits for outstanding requests; must not hold up the run
 }
 
 // ---- generation ------------------------------------------------------------
